@@ -45,8 +45,76 @@ def module_tables():
     return out
 
 
+def global_settings():
+    """Process-global interpreter / library switches that a call into a pure I/O library has no business leaving changed:
+    a change persists into every later call (of any format, in any thread)."""
+    import decimal
+    import locale
+    import sys
+    import warnings
+
+    import attrs
+    import numpy as np
+
+    def name(fn):
+        return f"{getattr(fn, '__module__', '?')}.{getattr(fn, '__qualname__', repr(type(fn)))}"
+
+    return {
+        "attrs.validators.disabled": bool(attrs.validators.get_disabled()),
+        "numpy.errstate": dict(np.geterr()),
+        "numpy.printoptions": {k: repr(v) for k, v in np.get_printoptions().items()},
+        # (the filter list itself is left out: importing a module may legitimately add filters)
+        "warnings.showwarning": name(warnings.showwarning),
+        "warnings._showwarnmsg_impl": name(getattr(warnings, "_showwarnmsg_impl", None)),
+        "os.getcwd": os.getcwd(),
+        "sys.recursionlimit": sys.getrecursionlimit(),
+        "decimal.prec": decimal.getcontext().prec,
+        "locale": repr(locale.getlocale()),
+        "os.umask": _umask(),
+    }
+
+
+def _umask():
+    m = os.umask(0o022)
+    os.umask(m)
+    return m
+
+
+# The state of the warnings machinery is observed but is NOT part of any verdict: the properties enumerate returned objects,
+# written bytes, outcomes and iodata's own tables.  (On the unchanged tree the API's `catch_warnings(record=True)` wrapper,
+# which is not thread-safe, leaves `warnings._showwarnmsg_impl` replaced after calls from several threads - DESIGN.md section 8.)
+OBSERVED_ONLY = ("warnings.",)
+
+
+def settings_diff(a, b):
+    return [(k, a[k], b.get(k)) for k in a if a[k] != b.get(k) and not k.startswith(OBSERVED_ONLY)]
+
+
+_WARN_ORIG = None
+
+
+def warnings_machinery_replaced(repair=True):
+    """True when warnings.showwarning / _showwarnmsg_impl are no longer the ones seen at the first call (observation only)."""
+    import warnings
+
+    global _WARN_ORIG
+    cur = (warnings.showwarning, getattr(warnings, "_showwarnmsg_impl", None))
+    if _WARN_ORIG is None:
+        _WARN_ORIG = cur
+        return False
+    changed = cur[0] is not _WARN_ORIG[0] or cur[1] is not _WARN_ORIG[1]
+    if changed and repair:
+        warnings.showwarning = _WARN_ORIG[0]
+        if _WARN_ORIG[1] is not None:
+            warnings._showwarnmsg_impl = _WARN_ORIG[1]
+    return changed
+
+
 def tables_snapshot():
-    return {k: snap.canon(v, with_props=False) for k, v in module_tables().items()}
+    out = {k: snap.canon(v, with_props=False) for k, v in module_tables().items()}
+    out["interpreter-global settings"] = snap.canon({k: v for k, v in global_settings().items() if not k.startswith(OBSERVED_ONLY)},
+                                                    with_props=False)
+    return out
 
 
 def tables_diff(a, b):
